@@ -50,6 +50,17 @@ Next ==
   /\ LET e == Rec[l] IN
      CASE e.ev = "reset" -> m' = St!Run(St!InitS, [k \in 1..Len(e.init) |-> St!OpNewArg(e.init[k])])
        [] e.ev = "u" -> LET r == St!Step(m, OpOf(e)) IN Judge(e, r.st, r.res) /\ m' = r.st
+       [] e.ev = "x" -> m' = St!Step(m, OpOf(e)).st      \* an update whose projection is not judged here (C14 runs)
+       [] e.ev = "rt" -> /\ m' = m          \* C14: AspartixWriter::write_framework then AspartixReader::read
+                         /\ LET b == e.back
+                                ids == St!LiveIds(m)
+                                RECURSIVE Ordered(_)
+                                Ordered(S) == IF S = {} THEN <<>> ELSE LET i == CHOOSE i \in S : \A j \in S : i <= j IN <<St!LabelOf(m, i)>> \o Ordered(S \ {i})
+                            IN /\ Report("C14:framework_reads_back", b.res = "ok")
+                               /\ b.res = "ok" =>
+                                    /\ Report("C14:same_labels_same_order", b.args = Ordered(ids))
+                                    /\ Report("C14:same_attacks", Pairs(b.att) = St!AsAF(m).att /\ b.natt_raw = Cardinality(m.att))
+                                    /\ Report("C14:one_declaration_per_line", b.nlines = Cardinality(ids) + Cardinality(m.att))
        [] e.ev = "probe" -> LET r == St!Step(m, OpOf(e)) IN Judge(e, r.st, r.res) /\ m' = m
        [] OTHER -> m' = m
 Spec == Init /\ [][Next]_<<l, m>>
